@@ -425,6 +425,7 @@ def bimodal_cases(vc):
         warnings.simplefilter("ignore")
         base.fit(tr["transform"](C), fd)
     out.append(("bimodal:Windmeier fitted to C", base, tr, 14.5))
+    tr0 = tr
     dd, fd, sem, tr = vc.get_Nonzero_EW_Hs_S()
     b2 = vc.GlobalHierarchicalModel(dd)
     d0, d1 = b2.distributions
@@ -432,6 +433,9 @@ def bimodal_cases(vc):
     d1.conditional_parameters["alpha"].parameters = {"a": 0.09215253891129106, "b": 0.7513560377021065}
     d1.conditional_parameters["beta"].parameters = {"a": 0.9100546060034046, "b": 1.2036171498390844}
     out.append(("bimodal:Nonzero round", b2, tr, 12.0))
+    # short periods: the conditional density of Hs reaches far below the lower end (0.05) of the support grid
+    out.append(("lowtail:Nonzero round", b2, tr, 1.5))
+    out.append(("lowtail:Windmeier fitted to C", base, tr0, 2.0))
     return out
 
 
